@@ -36,7 +36,7 @@
     `ITimeout - sub`, so no wrap-around is involved; `[]int8` is `List Int`; Go maps are association
     lists read through `lookup` and written through `setKey`.
 
-  `Variant`: the tree as found at round 0 (`asFound`) and with `pending/C10-*.patch` (`repaired`),
+  `Variant`: the tree as found at round 0 (`asFound`) and as repaired by commits 17261bf / a260ec1 (`repaired`),
   one flag per repaired function so that each patch is modelled on exactly the definition it changes.
 -/
 import TarsModel.Generated.Consts
@@ -100,12 +100,12 @@ def statusResultDesc : String := "STATUS_RESULT_DESC"
 
 structure Variant where
   /-- `InvokeTimeout` copies `IVersion`/`CPacketType` from the request and returns nothing for a
-      one-way request (pending/C10-invoke-timeout-identity.patch, tarsprotocol.go part) -/
+      one-way request (commit 17261bf, tarsprotocol.go part) -/
   timeoutIdentity : Bool
   /-- the transport handlers do not write an empty response (same patch, transport part) -/
   skipEmpty : Bool
   /-- `req2Byte` carries a non-zero `IRet` and `SResultDesc` in the status map
-      (pending/C10-tup-result-status.patch) -/
+      (commit a260ec1) -/
   tupStatus : Bool
   deriving DecidableEq, Repr
 
@@ -346,5 +346,48 @@ inductive Run (v : Variant) (cfg : Config) : List Job → List Outcome → Prop 
 
 /-- everything written during a run (in request order; the real order is any permutation) -/
 def written (os : List Outcome) : List Wire := os.flatMap Outcome.packets
+
+/-! ### the payload of a TUP answer as the emitted dispatcher builds it (gen_go.go, genSwitchCase)
+
+  The TUP branch of every `case "<func>":` tars2go emits shares ONE `codec.Buffer` (`buf`):
+
+      <write funRet at tag 0>                       (only for a function with a return value)
+      rspTup.PutBuffer("", buf.ToBytes()); rspTup.PutBuffer("tars_ret", buf.ToBytes())
+      for every out parameter v, in declaration order:
+          buf.Reset()
+          <write v at tag 0>
+          rspTup.PutBuffer("<name of v>", buf.ToBytes())
+
+  `ToBytes` hands out the current content, a write appends.  The value encodings are parameters
+  (byte strings; the codec is C02/C03's subject). -/
+
+/-- the out-parameter loop; `buf` = content of the shared buffer on entry, `first` = no out parameter
+    was written yet; `resetFirst`/`resetLater` = whether `buf.Reset()` is emitted before the first / the
+    later out parameters -/
+def tupOutLoop (resetFirst resetLater : Bool) (buf : List Nat) (first : Bool) :
+    List (String × List Nat) → List (String × List Nat)
+  | [] => []
+  | (name, enc) :: rest =>
+    let reset := if first then resetFirst else resetLater
+    let buf' := (if reset then [] else buf) ++ enc
+    (name, buf') :: tupOutLoop resetFirst resetLater buf' false rest
+
+/-- the attributes put into `rspTup`, in the order of the `PutBuffer` calls -/
+def tupRspAttrs (resetFirst resetLater : Bool) (ret : Option (List Nat)) (outs : List (String × List Nat)) :
+    List (String × List Nat) :=
+  match ret with
+  | none => tupOutLoop resetFirst resetLater [] true outs
+  | some r => ("", r) :: ("tars_ret", r) :: tupOutLoop resetFirst resetLater r true outs
+
+/-- the emitted code of the current tree (where `buf.Reset()` is emitted is re-read on every run) -/
+def genTupRspAttrs : Option (List Nat) → List (String × List Nat) → List (String × List Nat) :=
+  tupRspAttrs (Consts.srvGenTupResetFirstOut = 1) (Consts.srvGenTupResetLaterOut = 1)
+
+/-- what the property demands: the return value under "" and "tars_ret", and one attribute per out
+    parameter holding exactly that parameter's encoding -/
+def tupRspSpec (ret : Option (List Nat)) (outs : List (String × List Nat)) : List (String × List Nat) :=
+  (match ret with
+   | none => []
+   | some r => [("", r), ("tars_ret", r)]) ++ outs
 
 end Tars.ServerInvoke
